@@ -22,19 +22,36 @@
 (* the responses - possibly tampered with - arrive in pieces.  The client records responses    *)
 (* (resp: [id, err]); a malformed response is recorded with err or keeps it waiting, but       *)
 (* servicing the client never raises.                                                          *)
-EXTENDS HttpMsg, TLC
+EXTENDS HttpMsg, TLC, Json, IOUtils
 
 CONSTANTS MaxMut,       \* at most that many tamperings
           MaxPieces,    \* pieces per connection
-          MaxK,         \* constant bound of a piece's length
+          MaxClose,     \* at most that many peers hang up
+          KSet,         \* the piece lengths explored (besides "all that is left"); a recorded execution may use any
           MaxPos,       \* constant bound of the byte positions tampered with
           MaxDepth,     \* bound on the length of behaviours (model checking only)
-          Level         \* 1: few scripts (model checking), 2: all scripts (simulation)
+          Level,        \* 1: few scripts (model checking), 2: all scripts (simulation)
+          Kinds         \* which programs are exercised: subset of {"server", "client"}
 
 Conns == 1..3
 
-VARIABLES kind, phase, script, wire, mutated, nmut, sent, pieces, pclosed, open, failed, resp, raised
-vars == <<kind, phase, script, wire, mutated, nmut, sent, pieces, pclosed, open, failed, resp, raised>>
+VARIABLES kind,      \* "server" | "client"
+          phase,     \* "plan" -> "mutate" -> "plan" ... -> "run"
+          plan,      \* the sort of tampering chosen next
+          bad,       \* the connection the environment may tamper with
+          script,    \* [c -> the well-formed messages connection c carries (indices into the family)]
+          wire,      \* [c -> the bytes connection c will carry, while the environment prepares them ("plan"/"mutate");
+                     \*  at Start they are handed to the peers and the model keeps only their number]
+          wlen,      \* [c -> number of bytes connection c carries] (set at Start)
+          mutated,   \* [c -> tampered with]
+          nmut,
+          sent, pieces,   \* [c -> bytes delivered / number of deliveries]
+          pclosed,   \* [c -> the peer has hung up]
+          open,      \* [c -> the connection is still held by the program under test]
+          failed,    \* [c -> the message was marked failed]
+          resp,      \* [c -> the responses received (server) / recorded (client): sequence of [id, err]]
+          raised     \* an exception left the service loop
+vars == <<kind, phase, plan, bad, script, wire, wlen, mutated, nmut, sent, pieces, pclosed, open, failed, resp, raised>>
 
 (* ---- the well-formed messages ---- *)
 H(n, o, v) == [name |-> n, ows |-> o, value |-> v]
@@ -59,8 +76,11 @@ ServerScripts == IF Level = 1 THEN {<<1>>, <<2, 3>>} ELSE {<<1>>, <<2>>, <<3>>, 
 ClientScripts == {<<1>>, <<2>>, <<1, 2>>, <<2, 1>>, <<3>>}      \* a body that runs until close comes last
 
 WireOf(kd, s) == Cat([j \in 1..Len(s) |-> Wire(Fam(kd)[s[j]])])
-\* offset of the end of the jth message of an untampered connection
-EndOf(kd, s, j) == Len(WireOf(kd, SubSeq(s, 1, j)))
+\* offset of the end of the jth message of an untampered connection (tabulated once)
+EndTab == TLCEval([kd \in {"server", "client"} |->
+                     [s \in (IF kd = "server" THEN ServerScripts ELSE ClientScripts) |->
+                        [j \in 1..Len(s) |-> Len(WireOf(kd, SubSeq(s, 1, j)))]]])
+EndOf(kd, s, j) == EndTab[kd][s][j]
 
 (* ---- tampering with the first message of a connection, by structure ---- *)
 BadVersion == <<"H", "T", "T", "X", "/", "1", ".", "1">>
@@ -110,13 +130,15 @@ Junk == << <<LF, LF>>, <<CR, LF, CR, LF>>, <<"HI", "HI", ":", CR, LF, CR, LF>>, 
 
 (* ---- behaviour ---- *)
 UsedConns == IF kind = "server" THEN Conns ELSE {1}
-None(c) == \A d \in Conns : d # c => ~mutated[d]      \* only one connection is ever tampered with
+Plans == {"msg", "flip", "drop", "insert", "junk", "truncate"}
 
-Init == /\ kind \in {"server", "client"}
-        /\ phase = "setup"
+Init == /\ kind \in Kinds
+        /\ phase = "plan" /\ plan = "none"
+        /\ bad \in (IF kind = "server" THEN Conns ELSE {1})
         /\ script \in [Conns -> IF kind = "server" THEN ServerScripts ELSE ClientScripts]
         /\ (kind = "client") => (script[2] = <<1>> /\ script[3] = <<1>>)      \* unused
         /\ wire = [c \in Conns |-> WireOf(kind, script[c])]
+        /\ wlen = [c \in Conns |-> 0]
         /\ mutated = [c \in Conns |-> FALSE]
         /\ nmut = 0
         /\ sent = [c \in Conns |-> 0] /\ pieces = [c \in Conns |-> 0]
@@ -125,37 +147,48 @@ Init == /\ kind \in {"server", "client"}
         /\ resp = [c \in Conns |-> <<>>]
         /\ raised = FALSE
 
-Tamper(c, w) == /\ phase = "setup" /\ nmut < MaxMut /\ c \in UsedConns /\ None(c)
-                /\ wire' = [wire EXCEPT ![c] = w]
-                /\ mutated' = [mutated EXCEPT ![c] = TRUE]
-                /\ nmut' = nmut + 1
-                /\ UNCHANGED <<kind, phase, script, sent, pieces, pclosed, open, failed, resp, raised>>
+\* the environment first decides what sort of tampering comes next (or to start) ...
+Plan(pl) == /\ phase = "plan" /\ nmut < MaxMut
+            /\ (pl = "msg") => (nmut = 0)     \* structured breakage applies to the untouched first message
+            /\ phase' = "mutate" /\ plan' = pl
+            /\ UNCHANGED <<kind, bad, script, wire, wlen, mutated, nmut, sent, pieces, pclosed, open, failed, resp, raised>>
+\* ... then does it, on the one connection it may tamper with
+Tamper(pl, c, w) == /\ phase = "mutate" /\ plan = pl /\ c = bad
+                    /\ wire' = [wire EXCEPT ![c] = w]
+                    /\ mutated' = [mutated EXCEPT ![c] = TRUE]
+                    /\ nmut' = nmut + 1
+                    /\ phase' = "plan" /\ plan' = "none"
+                    /\ UNCHANGED <<kind, bad, script, wlen, sent, pieces, pclosed, open, failed, resp, raised>>
 
-\* the first message of the connection is broken in a structured way (only as first tampering: the rest follows untouched)
-MutMsg(c, mu) == /\ nmut = 0
-                 /\ Applicable(Fam(kind)[script[c][1]], mu)
-                 /\ Tamper(c, MWire(Fam(kind)[script[c][1]], mu) \o WireOf(kind, Tail(script[c])))
-MutFlip(c, i, b) == i \in 1..Len(wire[c]) /\ wire[c][i] # b /\ Tamper(c, [wire[c] EXCEPT ![i] = b])
-MutDrop(c, i) == i \in 1..Len(wire[c]) /\ Len(wire[c]) > 1 /\ Tamper(c, SubSeq(wire[c], 1, i - 1) \o SubSeq(wire[c], i + 1, Len(wire[c])))
-MutInsert(c, i, b) == i \in 1..Len(wire[c]) /\ Tamper(c, SubSeq(wire[c], 1, i - 1) \o <<b>> \o SubSeq(wire[c], i, Len(wire[c])))
-MutJunk(c, j) == Tamper(c, Junk[j] \o (IF j % 2 = 0 THEN wire[c] ELSE <<>>))
-MutTruncate(c, i) == i \in 1..(Len(wire[c]) - 1) /\ Tamper(c, SubSeq(wire[c], 1, i))
+\* the first message of the connection is broken in a structured way (the rest follows untouched)
+MutMsg(c, mu) == /\ Applicable(Fam(kind)[script[c][1]], mu)
+                 /\ Tamper("msg", c, MWire(Fam(kind)[script[c][1]], mu) \o WireOf(kind, Tail(script[c])))
+MutFlip(c, i, b) == i \in 1..Len(wire[c]) /\ wire[c][i] # b /\ Tamper("flip", c, [wire[c] EXCEPT ![i] = b])
+MutDrop(c, i) == i \in 1..Len(wire[c]) /\ Len(wire[c]) > 1 /\ Tamper("drop", c, SubSeq(wire[c], 1, i - 1) \o SubSeq(wire[c], i + 1, Len(wire[c])))
+MutInsert(c, i, b) == i \in 1..Len(wire[c]) /\ Tamper("insert", c, SubSeq(wire[c], 1, i - 1) \o <<b>> \o SubSeq(wire[c], i, Len(wire[c])))
+MutJunk(c, j) == j \in 1..Len(Junk) /\ Tamper("junk", c, Junk[j] \o (IF j % 2 = 0 THEN wire[c] ELSE <<>>))
+MutTruncate(c, i) == i \in 1..(Len(wire[c]) - 1) /\ Tamper("truncate", c, SubSeq(wire[c], 1, i))
 
-Start == /\ phase = "setup" /\ phase' = "run"
-         /\ UNCHANGED <<kind, script, wire, mutated, nmut, sent, pieces, pclosed, open, failed, resp, raised>>
+Start == /\ phase = "plan" /\ phase' = "run"
+         /\ wlen' = [c \in Conns |-> Len(wire[c])]
+         /\ wire' = [c \in Conns |-> <<>>]
+         /\ UNCHANGED <<kind, plan, bad, script, mutated, nmut, sent, pieces, pclosed, open, failed, resp, raised>>
 
 \* environment: the next k bytes of connection c arrive (the last allowed piece brings the rest)
 Deliver(c, k) == /\ phase = "run" /\ c \in UsedConns /\ ~pclosed[c] /\ pieces[c] < MaxPieces
-                 /\ k \in 1..(Len(wire[c]) - sent[c])
-                 /\ (pieces[c] = MaxPieces - 1) => (sent[c] + k = Len(wire[c]))
+                 /\ k >= 1 /\ k <= wlen[c] - sent[c]
+                 /\ (pieces[c] = MaxPieces - 1) => (sent[c] + k = wlen[c])
                  /\ sent' = [sent EXCEPT ![c] = @ + k]
                  /\ pieces' = [pieces EXCEPT ![c] = @ + 1]
-                 /\ UNCHANGED <<kind, phase, script, wire, mutated, nmut, pclosed, open, failed, resp, raised>>
+                 /\ UNCHANGED <<kind, phase, plan, bad, script, wire, wlen, mutated, nmut, pclosed, open, failed, resp, raised>>
+
+DeliverRest(c) == Deliver(c, wlen[c] - sent[c])
 
 \* environment: the peer of connection c hangs up
 PeerClose(c) == /\ phase = "run" /\ c \in UsedConns /\ ~pclosed[c]
+                /\ Cardinality({d \in Conns : pclosed[d]}) < MaxClose
                 /\ pclosed' = [pclosed EXCEPT ![c] = TRUE]
-                /\ UNCHANGED <<kind, phase, script, wire, mutated, nmut, sent, pieces, open, failed, resp, raised>>
+                /\ UNCHANGED <<kind, phase, plan, bad, script, wire, wlen, mutated, nmut, sent, pieces, open, failed, resp, raised>>
 
 (* ---- what servicing may do ---- *)
 IsPre(a, b) == Len(a) <= Len(b) /\ a = SubSeq(b, 1, Len(a))
@@ -168,7 +201,7 @@ Expect(c) == [j \in 1..NComplete(c) |-> [id |-> script[c][j], err |-> FALSE]]
 \* untouched by the environment's mischief: not tampered with; the peer is still there
 \* (a client's peer may hang up once it has sent everything)
 Good(c) == /\ ~mutated[c]
-           /\ IF kind = "server" THEN ~pclosed[c] ELSE (pclosed[c] => sent[c] = Len(wire[c]))
+           /\ IF kind = "server" THEN ~pclosed[c] ELSE (pclosed[c] => sent[c] = wlen[c])
 
 \* o = what an observer sees of the connections after the pass: [c -> [open, failed, resp]]
 Allowed(c, o, settle) ==
@@ -178,7 +211,8 @@ Allowed(c, o, settle) ==
          /\ IsPre(resp[c], o.resp) /\ IsPre(o.resp, Expect(c))
          /\ settle => o.resp = Expect(c)
     ELSE /\ IsPre(resp[c], o.resp)
-         /\ ~open[c] => (~o.open /\ o.resp = resp[c])
+         \* a connection the server closed is gone for good (a client may still work off what it received before the hang-up)
+         /\ (kind = "server" /\ ~open[c]) => (~o.open /\ o.resp = resp[c])
          /\ failed[c] => o.failed
          /\ o.failed => ~o.open
 
@@ -188,33 +222,33 @@ ServiceCore(obs, settle) ==
     /\ open' = [c \in Conns |-> IF c \in UsedConns THEN obs[c].open ELSE open[c]]
     /\ failed' = [c \in Conns |-> IF c \in UsedConns THEN obs[c].failed ELSE failed[c]]
     /\ resp' = [c \in Conns |-> IF c \in UsedConns THEN obs[c].resp ELSE resp[c]]
-    /\ UNCHANGED <<kind, phase, script, wire, mutated, nmut, sent, pieces, pclosed>>
+    /\ UNCHANGED <<kind, phase, plan, bad, script, wire, wlen, mutated, nmut, sent, pieces, pclosed>>
 
 \* the observations the model offers: for a good connection any admissible progress, for the others
 \* wait / one more response (id 0: "some response") with or without error / failed and closed / just closed
 Some == {[id |-> 0, err |-> e] : e \in BOOLEAN}
 Choices(c) ==
     IF Good(c) THEN {[open |-> TRUE, failed |-> FALSE, resp |-> SubSeq(Expect(c), 1, n)] : n \in Len(resp[c])..NComplete(c)}
-    ELSE IF ~open[c] THEN {[open |-> FALSE, failed |-> failed[c], resp |-> resp[c]]}
+    ELSE IF kind = "server" /\ ~open[c] THEN {[open |-> FALSE, failed |-> failed[c], resp |-> resp[c]]}
+    ELSE IF failed[c] THEN {[open |-> FALSE, failed |-> TRUE, resp |-> resp[c]]}
     ELSE {[open |-> TRUE, failed |-> FALSE, resp |-> resp[c]], [open |-> FALSE, failed |-> TRUE, resp |-> resp[c]],
           [open |-> FALSE, failed |-> FALSE, resp |-> resp[c]]}
          \cup (IF Len(resp[c]) < 2 THEN {[open |-> op, failed |-> FALSE, resp |-> Append(resp[c], s)] : s \in Some, op \in BOOLEAN} ELSE {})
 
-Service == \E obs \in [Conns -> UNION {Choices(c) : c \in Conns}] :
-              /\ \A c \in Conns : obs[c] \in Choices(c)
-              /\ ServiceCore(obs, FALSE) /\ raised' = FALSE
-Settle == \E obs \in [Conns -> UNION {Choices(c) : c \in Conns}] :
-              /\ \A c \in Conns : obs[c] \in Choices(c)
-              /\ ServiceCore(obs, TRUE) /\ raised' = FALSE
+Pick(o1, o2, o3) == [c \in Conns |-> CASE c = 1 -> o1 [] c = 2 -> o2 [] c = 3 -> o3]
+Service == \E o1 \in Choices(1), o2 \in Choices(2), o3 \in Choices(3) : ServiceCore(Pick(o1, o2, o3), FALSE) /\ raised' = FALSE
+Settle == \E o1 \in Choices(1), o2 \in Choices(2), o3 \in Choices(3) : ServiceCore(Pick(o1, o2, o3), TRUE) /\ raised' = FALSE
 
-Next == \/ \E c \in Conns, mu \in MutKinds : MutMsg(c, mu)
+Next == \/ \E pl \in Plans : Plan(pl)
+        \/ \E c \in Conns, mu \in MutKinds : MutMsg(c, mu)
         \/ \E c \in Conns, i \in 1..MaxPos, b \in FlipBytes : MutFlip(c, i, b)
         \/ \E c \in Conns, i \in 1..MaxPos : MutDrop(c, i)
         \/ \E c \in Conns, i \in 1..MaxPos, b \in FlipBytes : MutInsert(c, i, b)
         \/ \E c \in Conns, j \in 1..7 : MutJunk(c, j)
         \/ \E c \in Conns, i \in 1..MaxPos : MutTruncate(c, i)
         \/ Start
-        \/ \E c \in Conns, k \in 1..MaxK : Deliver(c, k)
+        \/ \E c \in Conns, k \in KSet : Deliver(c, k)
+        \/ \E c \in Conns : DeliverRest(c)
         \/ \E c \in Conns : PeerClose(c)
         \/ Service \/ Settle
 Spec == Init /\ [][Next]_vars
@@ -228,4 +262,9 @@ OthersUndisturbed == \A c \in UsedConns : Good(c) => /\ (kind = "server" => open
                                                      /\ Len(resp[c]) <= NComplete(c)
 FailedMeansClosed == \A c \in UsedConns : failed[c] => ~open[c]
 Bounded == TLCGet("level") <= MaxDepth
+
+\* what the harness needs to know about the well-formed messages (written when MALFORMED_TABLE names a file)
+Table == [reqs |-> [i \in 1..Len(ReqFam) |-> [start |-> ReqFam[i].start, body |-> BodyData(ReqFam[i].body)]],
+          resps |-> [i \in 1..Len(RespFam) |-> [start |-> RespFam[i].start, body |-> BodyData(RespFam[i].body)]]]
+ASSUME (IOEnv.MALFORMED_TABLE = "") \/ JsonSerialize(IOEnv.MALFORMED_TABLE, Table)
 =============================================================================
